@@ -25,7 +25,11 @@ func FollowLinks(fs FS, paths []string) ([]string, error) {
 	for r := range r.resolved {
 		res = append(res, filepath.ToSlash(r))
 	}
-	sort.Strings(res)
+	// dedupePaths needs the protocol's path order (separator lowest), in
+	// which a directory is directly followed by everything below it
+	sort.Slice(res, func(i, j int) bool {
+		return ComparePath(res[i], res[j]) < 0
+	})
 	return dedupePaths(res), nil
 }
 
